@@ -97,6 +97,21 @@ def setHead (s : State) (h : Nat) : State :=
 /-- `store.get_head()` -/
 def storeHead (a : AbsStore) : Option Hdr := a.headHeight.bind a.atHeight
 
+/-- `try_init`: the network head has to be inserted unless it is already the store's head
+    (only the hashes are compared) -/
+def needsInsert (a : AbsStore) (h : Hdr) : Bool :=
+  match storeHead a with
+  | some sh => sh.hash != h.hash
+  | none => true
+
+/-- the store part of `try_init`; `none` = the insertion failed (non-fatal, retried later) -/
+def tryInit (e : Env) (a : AbsStore) (h : Hdr) : Option AbsStore :=
+  if needsInsert a h then
+    match a.insert e.verify [h] with
+    | (a', .ok _) => some a'
+    | (_, .err _) => none
+  else some a
+
 /-- one reaction of the worker; returns the request scheduled by the reaction, if any -/
 def step (e : Env) (s : State) : Ev → State × Option Ranges.Range
   | .peers n =>
@@ -112,18 +127,9 @@ def step (e : Env) (s : State) : Ev → State × Option Ranges.Range
     match s.phase with
     | .connected => (s, none)
     | .connecting =>
-      -- `try_init`
-      let tryInsert := match storeHead s.store with
-        | some sh => sh.hash != h.hash
-        | none => true
-      let (store', ok) :=
-        if tryInsert then
-          match s.store.insert e.verify [h] with
-          | (a, .ok _) => (a, true)
-          | (a, .err _) => (a, false)
-        else (s.store, true)
-      if !ok then (s, none)   -- non-fatal: `try_init_task` sleeps and retries
-      else
+      match tryInit e s.store h with
+      | none => (s, none)   -- non-fatal: `try_init_task` sleeps and retries
+      | some store' =>
         let s := setHead { s with store := store' } h.height
         -- `connected_event_loop`
         if s.peers == 0 then (s, none)
